@@ -31,6 +31,19 @@ const TOK: &[&str] = &[
 ];
 
 fn mappings_strategy() -> BoxedStrategy<Case> {
+  prop_oneof![
+    80 => short_mappings(),
+    // very long runs of empty lines / empty segments (a bundle with a big unmapped prefix): anything that
+    // spends stack or quadratic time per separator shows here
+    1 => (1_000usize..150_000, any::<bool>(), any::<u16>()).prop_map(|(n, semi, k)| {
+      let pre = ["", "AAAA", "AAAA,CAAC", ";A"][idx(k, 4)];
+      Case::Mappings(format!("{pre}{}AACA;AAAA", if semi { ";" } else { "," }.repeat(n)))
+    }),
+  ]
+  .boxed()
+}
+
+fn short_mappings() -> BoxedStrategy<Case> {
   vec(
     prop_oneof![
       8 => any::<u16>().prop_map(|s| TOK[idx(s, TOK.len())].to_string()),
@@ -185,12 +198,14 @@ impl Prop for C17 {
   fn check(&self, case: &Case) -> CheckResult {
     match case {
       Case::Mappings(s) => {
-        let n = guard(|| {
+        let decode = || {
           let m = SourceMap::new(s.clone(), Vec::<String>::new(), Vec::<String>::new(), Vec::<String>::new());
           let a = m.decoded_mappings().count();
           let b = rspack_sources::decode_mappings(&m).count();
           (a, b)
-        })
+        };
+        // long strings on an ordinary 2 MiB stack (recursion per separator must not exhaust it)
+        let n = guard(|| if s.len() > 2000 { crate::runner::on_small_stack(decode) } else { decode() })
         .map_err(|p| format!("decode_mappings({s:?}): {p}"))?;
         if n.0 != n.1 {
           return Err(format!("decode_mappings and decoded_mappings yield {} / {} segments for {s:?}", n.1, n.0));
